@@ -921,6 +921,52 @@ fn join_chunks(chunks: Vec<Chunk>, options: &FormattingOptions) -> String {
     result.join("\n")
 }
 
+#[cfg(mos_verif)]
+/// Verification hook: the chunk list that the formatter builds for a file, before line assembly.
+/// Every chunk is `(type, indent, text)` with type 0 = plain, 1 = label, 2 = comment.
+pub fn verif_chunks<P: Into<PathBuf>>(
+    path: P,
+    ast: Arc<ParseTree>,
+    options: FormattingOptions,
+) -> Vec<(u8, usize, String)> {
+    let mut fmt = CodeFormatter::new(ast, options);
+    let path = path.into();
+    let tree = fmt.tree.clone();
+    fmt.format_tokens(
+        &tree.try_get_file(path).expect("File not found").tokens,
+        false,
+    );
+    fmt.chunks
+        .iter()
+        .map(|c| {
+            let ty = match c.ty {
+                None => 0,
+                Some(ChunkType::Label) => 1,
+                Some(ChunkType::Comment) => 2,
+            };
+            (ty, c.indent, c.str.clone())
+        })
+        .collect()
+}
+
+#[cfg(mos_verif)]
+/// Verification hook: line assembly (`join_chunks`) of an arbitrary chunk list, encoded as in [verif_chunks].
+pub fn verif_join_chunks(chunks: Vec<(u8, usize, String)>, options: &FormattingOptions) -> String {
+    let chunks = chunks
+        .into_iter()
+        .map(|(ty, indent, str)| Chunk {
+            ty: match ty {
+                1 => Some(ChunkType::Label),
+                2 => Some(ChunkType::Comment),
+                _ => None,
+            },
+            indent,
+            str,
+        })
+        .collect();
+    join_chunks(chunks, options)
+}
+
 #[cfg(test)]
 mod tests {
     use super::*;
